@@ -229,6 +229,7 @@ def run_arith(repo, rep, prop):
 
     # ---------------------------------------------------------------- L.c budget discipline
     n = 0
+    lc_skipped = False
     for name in ('fast_fitting_predicate', 'smart_fitting_predicate'):
         m = ms[name]
         if not m.exact:
@@ -242,10 +243,17 @@ def run_arith(repo, rep, prop):
                 break
             if isinstance(st, ast.Assign) and isinstance(st.targets[0], ast.Name) and src(st.value) == P_MAXW:
                 budget = st.targets[0].id
-        n += 1
         if budget is None:
             # the parameter itself may be the budget
             budget = P_MAXW
+        if budget not in names_in(m.loop.test):
+            # the loop is not guarded by the budget (it runs while the stack has entries and leaves through explicit tests): the budget
+            # discipline has another shape here and is decided on what the predicate computes (interpreted layouts, %s.L.m)
+            rep.note('%s: the look-ahead loop is guarded by %s, not by the budget %s; its budget discipline is decided by the interpreted '
+                     'layouts' % (name, src(m.loop.test), budget))
+            lc_skipped = True
+            continue
+        n += 1
         try:
             guard = compare_form(m.loop.test)
             okg = guard == ('ge0', atom(budget))
@@ -321,7 +329,7 @@ def run_arith(repo, rep, prop):
                 ok = True
         rep.check(ok, prop + '.L.c', '%s:empty-stack-fits' % name, '%s:%d' % (rel, m.loop.lineno),
                   'nothing left to place fits', '%s lost the "stack empty -> fits" exit' % name)
-    if all_exact:
+    if all_exact and not lc_skipped:
         rep.floor(prop + '.L.c', n, 12)
 
     # ---------------------------------------------------------------- L.e forced breaks
